@@ -109,6 +109,7 @@ type SpecFunc struct {
 	Src    string
 	File   string
 	Line   int
+	Pkg    string // import path of the package whose contract file declares it
 }
 
 type Axiom struct {
@@ -144,7 +145,7 @@ var clauseKeywords = map[string]bool{
 	"ghost": true, "assigns": true, "modular": true, "inline": true, "trusted": true,
 	"mode": true, "alloc_bound": true, "pure": true, "protected_by": true, "immutable": true,
 	"inv": true, "opaque": true, "havoc": true, "noinline": true, "bounded": true, "returns_fresh": true,
-	"sweep": true, "cover": true, "replay_hint": true,
+	"sweep": true, "cover": true, "replay_hint": true, "never_writes": true, "frame_only": true,
 }
 
 // ParseContractFile reads one file and adds its declarations to cs. pkgKey is
@@ -273,7 +274,7 @@ func (cs *ContractSet) ParseContractFile(path string, pkgPath string) error {
 			if err != nil {
 				return fmt.Errorf("%s:%d: %v", path, l.no, err)
 			}
-			sf.File, sf.Line = path, l.no
+			sf.File, sf.Line, sf.Pkg = path, l.no, pkgPath
 			cs.Specs[sf.Name] = sf
 		case "axiom":
 			cur, curType = nil, nil
@@ -384,6 +385,7 @@ func (cs *ContractSet) ParseContractFile(path string, pkgPath string) error {
 						return err
 					}
 					ac.Clause = c
+				case "stop":
 				default:
 					return fmt.Errorf("%s:%d: unknown at-kind %q", path, l.no, w)
 				}
